@@ -49,7 +49,7 @@ type FuncRun struct {
 	entryVars map[string]CVal
 	loops     *LoopInfo
 	notes     []string
-	epochAlloc map[int]Term
+	epochInfo map[int]*epochInfo
 	unknownCalls map[string]bool
 	usedContracts map[string]bool
 	usedExternals map[string]bool
@@ -164,7 +164,7 @@ func analyzeLoops(fn *ssa.Function) *LoopInfo {
 
 func (eng *Engine) newRun(fn *ssa.Function) *FuncRun {
 	run := &FuncRun{eng: eng, fn: fn, key: eng.funcKey(fn), decls: map[string]string{}, compSorts: map[string]Sort{},
-		epochAlloc: map[int]Term{},
+		epochInfo: map[int]*epochInfo{},
 		unknownCalls: map[string]bool{}, usedContracts: map[string]bool{}, usedExternals: map[string]bool{}, usedAxioms: map[string]bool{}, maxPaths: 4000}
 	run.contract = eng.contractFor(fn)
 	run.loops = analyzeLoops(fn)
@@ -215,6 +215,20 @@ func (eng *Engine) VerifyFunction(fn *ssa.Function, cone map[string]bool) (run *
 		run.entryVars["&"+fv.Name()] = CVal{T: c, Type: fv.Type()}
 	}
 	run.entry = st.Snap()
+	// global invariants of the module's packages (established by init, kept by
+	// the frame.G obligations of every function)
+	if fn.Synthetic != "package initializer" {
+		for _, gi := range eng.ginvs {
+			genv := run.contractEnv(st, run.entry, nil)
+			genv.pkg = gi.Pkg
+			t := genv.evalBool(gi.Expr)
+			for _, f := range genv.takeFacts() {
+				st.Assume(f)
+			}
+			st.script.Comment("global invariant " + gi.Name)
+			st.Assume(t)
+		}
+	}
 	// preconditions
 	if run.contract != nil {
 		env := run.contractEnv(st, run.entry, nil)
